@@ -22,6 +22,9 @@ static bool on = false;
 static const uint8_t *ch = nullptr;
 static size_t chn = 0, chi = 0, nsw = 0, npts = 0;
 static size_t nspurious = 0;
+static int sched_mode = 0;                                 // 0: explicit choice vector, 1: PCT-style priorities
+static std::vector<long> prio;                             // PCT: priority per thread id (higher runs first)
+static std::vector<size_t> change_at;                      // PCT: scheduling-point numbers at which the running thread is demoted
 static long long vclock_ns = 0;                           // virtual wall clock (see clock_gettime below)
 static std::vector<uint8_t> wid;                          // number of alternatives at every consumed choice
 static std::map<const void *, int> owner;                // mutex -> tid (absent = free)
@@ -66,6 +69,14 @@ static int pick(bool self_ok) {
     if (self_ok) en[n++] = cur;
     for (Th *t : ths) if (t->id != cur && n < 64 && enabled(t)) en[n++] = t->id;
     if (n == 0) deadlock();
+    if (sched_mode == 1) {
+        // PCT (Burckhardt et al.): random priorities, the highest-priority enabled thread runs; at d pre-chosen scheduling
+        // points the running thread is demoted below everybody else.  All of it is derived from the case's bytes.
+        for (size_t k = 0; k < change_at.size(); ++k) if (change_at[k] == npts && cur >= 0 && (size_t)cur < prio.size()) prio[(size_t)cur] = -(long)(k + 1);
+        int best = en[0];
+        for (int i = 1; i < n; ++i) { size_t a = (size_t)en[i], b = (size_t)best; long pa = a < prio.size() ? prio[a] : 0, pb = b < prio.size() ? prio[b] : 0; if (pa > pb) best = en[i]; }
+        return best;
+    }
     if (n == 1) return en[0];
     wid.push_back((uint8_t)n);
     uint8_t c = next_choice();
@@ -98,12 +109,26 @@ static void switch_to(int nxt, bool park_self) {
 static void point() { switch_to(pick(true), true); }
 static void block() { switch_to(pick(false), true); }
 
+static long pct_prio(int tid) {   // distinct pseudo-random priorities from the schedule bytes
+    uint64_t h = 1469598103934665603ull;
+    for (size_t i = 0; i < chn && i < 16; ++i) { h ^= ch[i]; h *= 1099511628211ull; }
+    h ^= (uint64_t)(tid + 1) * 0x9E3779B97F4A7C15ull; h ^= h >> 29; h *= 0xBF58476D1CE4E5B9ull; h ^= h >> 32;
+    return (long)(h % 1000000) + 10;
+}
+void set_mode_pct(bool on_) { sched_mode = on_ ? 1 : 0; }
 void begin(const uint8_t *c, size_t n) {
     ths.clear(); owner.clear(); waiters.clear();
     ch = c; chn = n; chi = 0; nsw = 0; npts = 0; nspurious = 0; wid.clear();
     vclock_ns = 1700000000LL * 1000000000LL;
     Th *t = new Th; t->id = 0; sem_init(&t->sem, 0, 0); t->real = pthread_self();
-    ths.push_back(t); me = t; cur = 0; on = true;
+    ths.push_back(t); me = t; cur = 0;
+    prio.clear(); change_at.clear();
+    if (sched_mode == 1) {
+        prio.push_back(pct_prio(0));
+        // up to 3 change points among the first ~120 scheduling points, taken from bytes 16..
+        for (size_t k = 0; k < 3 && 16 + k < chn; ++k) change_at.push_back((size_t)ch[16 + k] % 120 + 1);
+    }
+    on = true;
 }
 void end() { on = false; }
 bool active() { return on && me; }
@@ -219,6 +244,7 @@ int pthread_create(pthread_t *t, const pthread_attr_t *a, void *(*fn)(void *), v
     if (!on || !me) return rc(t, a, fn, arg);
     Th *n = new Th; n->id = (int)ths.size(); sem_init(&n->sem, 0, 0); n->fn = fn; n->arg = arg;
     ths.push_back(n);
+    if (sched_mode == 1) { prio.resize(ths.size(), 0); prio[(size_t)n->id] = pct_prio(n->id); }
     int r = rc(&n->real, a, tramp, n);
     *t = n->real;
     if (on_spawn) on_spawn(me->id, n->id);
